@@ -21,8 +21,8 @@ stream `spec-vs-reference`).
 import itertools
 import json
 
-STREAMS = ['names-exhaustive-bytes', 'names-exhaustive-direct', 'names-random-bytes',
-           'spec-vs-reference', 'client-flags']
+STREAMS = ['names-exhaustive-bytes', 'names-exhaustive-direct', 'names-two-name-handover',
+           'names-random-bytes', 'spec-vs-reference', 'client-flags']
 THEOREMS = ['inv_reachable', 'inv_step', 'at_most_one_owner_and_alive', 'step_never_raises',
             'request_semantics', 'reply_states_relation', 'release_semantics', 'disconnect_semantics',
             'signals_track_ownership', 'at_most_one_believer',
@@ -354,6 +354,8 @@ class Ref:
             return out
         a = [int(x) for x in tok[1:].split(',')]
         c = a[0]
+        if kind == 'x':          # other traffic: the statement gives it no effect on names
+            return out
         if kind == 'd':
             self.conn.discard(c)
             for n in sorted(self.q):
@@ -415,7 +417,7 @@ class Ref:
     def spec_field(self, tok, names):
         kind = tok[0]
         a = [int(x) for x in tok[1:].split(',')] if kind != 'c' else []
-        if kind != 'c' and kind not in 'ol' and a[0] not in self.conn:
+        if kind != 'c' and kind not in 'olx' and a[0] not in self.conn:
             return 'REFUSED'
         r = self.step(tok)
         ev = ['%s%d:%d' % t for t in r['told']]
@@ -432,32 +434,52 @@ class Ref:
 
 
 # ----------------------------------------------------------------------------- the oracle
-def judge(world, ref, tok, events):
-    """Implementation-only judgement of one step.  `ref` is advanced.  Returns None or
-    (key, what, observed, expected)."""
+UNJUDGED = 'unjudged'
+
+
+def observe(world, names):
+    """What a client can see of the table: per name (GetNameOwner, ListQueuedOwners) through the bus's public
+    methods.  An unowned name may be reported by the NameHasNoOwner error or by an empty list."""
+    obs = {}
+    for n in names:
+        own, lst = world.lookup(n)
+        obs[n] = (own, [] if lst is None else lst)
+    return obs
+
+
+def judge(world, ref, tok, events, names=(0, 1)):
+    """Implementation-only judgement of one step, from observables only: the reply, the NameAcquired
+    deliveries of the step, and GetNameOwner / ListQueuedOwners of every name afterwards - against the reference
+    table `ref` (advanced here) and the set of connections the harness itself has open (`ref.conn`).
+    The live dicts `bus.busNames` / `proto.busNames` are NOT read here (they are compared with the model, S3).
+    Returns None, UNJUDGED (stop judging this history) or (key, what, observed, expected)."""
     kind = tok[0]
     a = [int(x) for x in tok[1:].split(',')] if kind != 'c' else []
-    before = {n: ref.queue(n) for n in range(len(NAMES))}
-    exp = ref.step(tok)
     if isinstance(events, str):
+        ref.step(tok)
         return ('name-op-raises', 'the bus raises %s while handling %s' % (events, tok), events, 'a reply')
-    live = world.queues()
-    conn = set(world.connected())
-    # 1. invariants of the live tables
-    for n, q in sorted(live.items(), key=str):
-        if len(set(q)) != len(q):
-            return ('queued-twice', 'a connection is in the queue of a name twice', {'queue': q},
-                    'every connection at most once in a queue')
-        dead = [k for k in q if k not in conn]
-        if dead and q[0] in dead:
-            return ('dead-queued-client-becomes-owner', 'the owner of a name is a connection that has disconnected',
-                    {'queue': q, 'connected': sorted(conn)}, 'the owner is a connected client')
-        if dead:
-            return ('disconnected-client-still-queued', 'a disconnected connection still waits in a queue',
-                    {'queue': q, 'connected': sorted(conn)}, 'a client that disconnected neither owns nor waits')
-        if not q:
-            return ('empty-queue-stored', 'Bus.busNames keeps an empty queue', {'name': n}, 'no entry')
-    # 2. reply code
+    # flag words with bits outside the three defined ones are outside the statement ("all 8 flag combinations"):
+    # follow whatever the bus did (treated the low bits / refused the call), never judge the step
+    if kind == 'q' and a[2] > 7:
+        trial = ref.copy()
+        exp = trial.step(tok)
+        try:
+            obs = observe(world, names)
+        except Exception:
+            return UNJUDGED
+        if all(obs[n][1] == trial.queue(n) for n in names):
+            ref.__dict__.update(trial.__dict__)
+            return None
+        if exp['alt'] is not None and obs[a[1]][1] == [e[0] for e in exp['alt']]:
+            trial.q[a[1]] = [list(e) for e in exp['alt']]
+            ref.__dict__.update(trial.__dict__)
+            return None
+        if all(obs[n][1] == ref.queue(n) for n in names):
+            return None
+        return UNJUDGED
+    before = {n: ref.queue(n) for n in names}
+    exp = ref.step(tok)
+    # 1. reply code
     got = None
     for e in events:
         if e[0] == 'r' and kind in 'qr' and e.startswith('r%d:' % a[0]):
@@ -476,10 +498,29 @@ def judge(world, ref, tok, events):
                         got, 'RELEASED (1), caller removed from the queue')
             return ('reply-code-' + exp['case'], 'reply code of %s does not state the resulting relation' % tok,
                     got, str(exp['code']))
-    # 3. the live queues against the reference
-    for n in range(len(NAMES)):
-        lq = live.get(n, [])
+    # 2. what the lookups say afterwards
+    try:
+        obs = observe(world, names)
+    except Exception as e:
+        return ('lookup-raises', 'GetNameOwner / ListQueuedOwners raises %s' % type(e).__name__, repr(e), 'an answer')
+    for n in names:
+        own, lq = obs[n]
         rq = ref.queue(n)
+        if isinstance(own, str) or isinstance(lq, str):
+            return ('lookup-error', 'GetNameOwner / ListQueuedOwners answers an unexpected error', [own, lq], rq)
+        if len(set(lq)) != len(lq):
+            return ('queued-twice', 'ListQueuedOwners lists a connection twice', {'queue': lq},
+                    'every connection at most once in a queue')
+        dead = [k for k in lq if k not in ref.conn]
+        if own is not None and own not in ref.conn:
+            return ('dead-queued-client-becomes-owner', 'GetNameOwner names a connection that has disconnected',
+                    {'owner': own, 'queue': lq, 'connected': sorted(ref.conn)}, 'the owner is a connected client')
+        if dead:
+            return ('disconnected-client-still-queued', 'ListQueuedOwners lists a connection that has disconnected',
+                    {'queue': lq, 'connected': sorted(ref.conn)}, 'a client that disconnected neither owns nor waits')
+        if own != (lq[0] if lq else None):
+            return ('lookups-disagree', 'GetNameOwner and ListQueuedOwners of one name disagree',
+                    {'owner': own, 'queue': lq}, 'owner = first of the listing')
         if lq == rq:
             continue
         if exp['alt'] is not None and kind == 'q' and n == a[1] and lq == [e[0] for e in exp['alt']]:
@@ -491,7 +532,7 @@ def judge(world, ref, tok, events):
                 return ('refused-but-still-queued', 'RequestName with DO_NOT_QUEUE by a queued connection answers '
                         'IN_USE but leaves the caller waiting in the queue', {'queue': lq}, {'queue': rq})
             if exp['case'] == 'queue' and c not in lq:
-                return ('request-no-replace-flag-not-queued', 'the caller was answered IN_QUEUE but is not queued',
+                return ('request-no-replace-flag-not-queued', 'the caller was answered IN_QUEUE but is not listed',
                         {'queue': lq}, {'queue': rq})
             if (lq[:1] != before[n][:1]) and exp['case'] not in ('replace', 'free'):
                 return ('owner-replaced-without-permission', 'the owner changed although the owner had not allowed '
@@ -505,18 +546,19 @@ def judge(world, ref, tok, events):
         if kind in 'rd' and lq[:1] != rq[:1]:
             return ('wrong-successor', 'after the owner left, the owner is not the longest-waiting queued client',
                     {'queue': lq}, {'queue': rq})
-        return ('queue-mismatch', 'queue of name %d differs from the reference table after %s' % (n, tok),
+        if kind == 'x':
+            return ('other-traffic-changes-names', 'a bus call that is not a name operation changed who owns / waits',
+                    {'queue': lq}, {'queue': rq})
+        return ('queue-mismatch', 'owner / listing of name %d differ from the reference table after %s' % (n, tok),
                 {'queue': lq}, {'queue': rq})
-    # 4. the new owner is told
+    # 3. the new owner is told (extra NameAcquired deliveries are not judged: the statement does not forbid them)
     want = sorted((t[1], t[2]) for t in exp['told'] if t[0] == 'A')
     have = sorted((int(e[1:].split(':')[0]), int(e.split(':')[1])) for e in events
                   if e[0] == 'A' and e.split(':')[1].isdigit())
-    if want != have:
-        missing = [w for w in want if w not in have]
-        if missing:
-            return ('new-owner-not-told', 'the new owner is not sent NameAcquired', have, want)
-        return ('spurious-name-acquired', 'NameAcquired sent to a connection that did not become owner', have, want)
-    # 5. lookups and listings
+    missing = [w for w in want if w not in have]
+    if missing:
+        return ('new-owner-not-told', 'the new owner is not sent NameAcquired', have, want)
+    # 4. the answer of an explicit lookup / listing sent through the bus
     if kind in 'ol':
         ans = None
         for e in events:
@@ -525,22 +567,17 @@ def judge(world, ref, tok, events):
             elif e[0] == 'o':
                 ans = int(e.split(':')[1])
             elif e[0] == 'l':
-                ans = [int(x) for x in e.split(':')[1].split('.') if x]
+                ans = [int(x) for x in e.split(':')[1].split('.') if x] or ('none',)
         want_ans = ('none',) if exp['answer'] is None else exp['answer']
         if ans != want_ans:
             return ('owner-lookup-disagrees' if kind == 'o' else 'queue-listing-disagrees',
                     '%s answers %r' % (tok, ans), ans, want_ans)
-    for n in range(len(NAMES)):
-        try:
-            own, lst = world.lookup(n)
-        except Exception as e:
-            return ('lookup-raises', 'GetNameOwner / ListQueuedOwners raises %s' % type(e).__name__, repr(e), 'an answer')
-        rq = ref.queue(n)
-        if own != (rq[0] if rq else None):
-            return ('owner-lookup-disagrees', 'GetNameOwner(%d) = %r' % (n, own), own, rq[0] if rq else None)
-        if lst != (rq if rq else None):
-            return ('queue-listing-disagrees', 'ListQueuedOwners(%d) = %r' % (n, lst), lst, rq if rq else None)
     return None
+
+
+def names_of(hist):
+    ns = sorted({int(t[1:].split(',')[1]) for t in hist if t[0] in 'qrol'})
+    return tuple(ns) if ns else (0,)
 
 
 # ----------------------------------------------------------------------------- running histories
@@ -548,8 +585,10 @@ def run_fresh(mode, hist):
     """Fresh bus, whole history.  -> (fields, verdict) ; verdict = None | (step index, key, what, obs, exp)"""
     w = World(mode)
     ref = Ref()
+    names = names_of(hist)
     fields = []
     verdict = None
+    judging = True
     dead = False
     for i, tok in enumerate(hist):
         if dead:
@@ -557,18 +596,24 @@ def run_fresh(mode, hist):
             continue
         ev = w.step(tok)
         fields.append(field(ev, w.state_str()))
-        if verdict is None:
-            v = judge(w, ref, tok, ev)
-            if v is not None:
+        if verdict is None and judging:
+            v = judge(w, ref, tok, ev, names)
+            if v == UNJUDGED:
+                judging = False
+            elif v is not None:
                 verdict = (i,) + v
-        elif verdict[1] == 'disconnected-client-still-queued' and not isinstance(ev, str):
+        elif verdict is not None and verdict[1] == 'disconnected-client-still-queued' and not isinstance(ev, str):
             # the same defect, one step further: the dead connection reaches the head of the queue
-            conn = set(w.connected())
-            for n, q in sorted(w.queues().items(), key=str):
-                if q and q[0] not in conn:
-                    verdict = (i, 'dead-queued-client-becomes-owner',
-                               'the owner of a name is a connection that has disconnected',
-                               {'queue': q, 'connected': sorted(conn), 'events': ev}, 'the owner is a connected client')
+            try:
+                for n in names:
+                    own, lq = w.lookup(n)
+                    if isinstance(own, int) and own not in ref.conn:
+                        verdict = (i, 'dead-queued-client-becomes-owner',
+                                   'GetNameOwner names a connection that has disconnected',
+                                   {'owner': own, 'queue': lq, 'connected': sorted(ref.conn), 'events': ev},
+                                   'the owner is a connected client')
+            except Exception:
+                pass
         if isinstance(ev, str):
             dead = True
     return fields, verdict
@@ -709,31 +754,49 @@ def selfcheck_restore(ctx, mode, prefix, nodes):
 
 
 def random_history(rng, length):
-    conn, nxt, total = [], 1, 0
-    hist = []
-    flagpool = list(range(4)) * 9 + list(range(4, 8)) * 4 + [8, 16, 0xFFFFFFF8, 0xFFFFFFFF, 0x80000002, 9, 10, 12, 15 + 16]
-    if rng.random() < 0.5:
-        # start from a full house: four connections queued on one name (deep queues are rare otherwise)
-        n0 = rng.randrange(len(NAMES))
-        hist = ['c', 'c', 'c', 'c']
+    """One random history.  Three shapes: small (<= 4 live connections, reconnects), full house (four
+    connections queued on one name first), crowd (12 connections, so that ':1.1' / ':1.10' / ':1.11' coexist and
+    queues get deeper than four).  Names: two or three of NAMES (which contain a case variant and a prefix of
+    name 0).  About 8 % of the steps are other bus traffic (AddMatch - so that clientDisconnected has rules to
+    remove -, a call to a well-known name, GetId, a signal)."""
+    hist, conn, nxt, total = [], [], 1, 0
+    flagpool = list(range(4)) * 9 + list(range(4, 8)) * 4 + [8, 16, 0xFFFFFFF8, 0xFFFFFFFF, 0x80000002, 9, 10, 12, 31]
+    names = rng.choice([[0, 1], [0, 1], [0, 2], [0, 3], [2, 3], [0, 2, 3], [1, 3, 0]])
+    shape = rng.random()
+    limit, cap = 4, 9
+    if shape < 0.35:
+        n0 = rng.choice(names)
+        hist = ['c'] * 4
         conn, nxt, total = [1, 2, 3, 4], 5, 4
         order = [1, 2, 3, 4]
         rng.shuffle(order)
         hist += ['q%d,%d,%d' % (c, n0, rng.randrange(4)) for c in order]
+    elif shape < 0.65:
+        k = 12
+        hist = ['c'] * k
+        conn, nxt, total = list(range(1, k + 1)), k + 1, k
+        limit, cap = 12, 14
+        if rng.random() < 0.6:
+            n0 = rng.choice(names)
+            order = list(conn)
+            rng.shuffle(order)
+            hist += ['q%d,%d,%d' % (c, n0, rng.randrange(4)) for c in order[:rng.randrange(5, 13)]]
     while len(hist) < length:
         r = rng.random()
-        if not conn or (r < 0.07 and len(conn) < 4 and total < 9):
+        if not conn or (r < 0.07 and len(conn) < limit and total < cap):
             hist.append('c')
             conn.append(nxt)
             nxt += 1
             total += 1
             continue
         c = rng.choice(conn)
-        n = rng.randrange(len(NAMES)) if rng.random() < 0.8 else 0
+        n = rng.choice(names) if rng.random() < 0.8 else names[0]
         if r < 0.12:
             hist.append('d%d' % c)
             conn.remove(c)
-        elif r < 0.62:
+        elif r < 0.20:
+            hist.append('x%d,%d' % (c, rng.randrange(5)))
+        elif r < 0.64:
             hist.append('q%d,%d,%d' % (c, n, rng.choice(flagpool)))
         elif r < 0.80:
             hist.append('r%d,%d' % (c, n))
@@ -742,6 +805,33 @@ def random_history(rng, length):
         else:
             hist.append('l%d,%d' % (c, n))
     return hist
+
+
+def two_name_family():
+    """Bounded-exhaustive: connection 1 owns both names, 2 and 3 wait (same / different successor on the two
+    names, optional third in line, every allow bit of the owner, both acquisition orders), the connection has a
+    match rule or not, then it disconnects or releases both names; then everything is looked up."""
+    out = []
+    for a in (2, 3):
+        for b in (2, 3):
+            for f in range(4):
+                for third in (False, True):
+                    for order in ((0, 1), (1, 0)):
+                        for leave in ('d', 'r', 'xd'):
+                            h = ['c', 'c', 'c']
+                            h += ['q1,%d,%d' % (order[0], f & 1), 'q1,%d,%d' % (order[1], f >> 1)]
+                            h += ['q%d,0,0' % a, 'q%d,1,0' % b]
+                            if third:
+                                h += ['q%d,0,0' % (5 - a), 'q%d,1,0' % (5 - b)]
+                            if leave == 'd':
+                                h += ['d1']
+                            elif leave == 'xd':
+                                h += ['x1,1', 'x1,0', 'd1']
+                            else:
+                                h += ['r1,0', 'r1,1']
+                            h += ['l2,0', 'l2,1', 'o3,0', 'o3,1']
+                            out.append(h)
+    return out
 
 
 def check_history(ctx, stream, mode, hist, model_line):
@@ -823,6 +913,13 @@ def run(ctx):
     selfcheck_restore(ctx, 'direct', prefix, nodes)
     ctx.impl_trace(len(nodes))
     ctx.exhaustive = True
+
+    # bounded-exhaustive two-name handover family (5..12 steps), byte path
+    fam = two_name_family()
+    fout = ctx.model(['h ' + ' '.join(h) for h in fam])
+    for i, h in enumerate(fam):
+        check_history(ctx, 'names-two-name-handover', 'bytes', h, fout[i] if fout else None)
+        ctx.case('names-two-name-handover', sample=h)
 
     # random, byte path, to length 60
     nh = ctx.scale(quick=150, thorough=2500)
